@@ -60,8 +60,12 @@ func vpC10Lens() []int {
 // vpOneCall performs one XORKeyStream call on msg[pos:pos+n] in one of four
 // buffer arrangements and returns the output bytes.
 func vpOneCall(s *CFB8, msg []byte, pos, n int) []byte {
+	return vpOneCallArr(s, msg, pos, n, vp.Choice(4))
+}
+
+func vpOneCallArr(s *CFB8, msg []byte, pos, n, arrangement int) []byte {
 	var dst, src []byte
-	switch vp.Choice(4) {
+	switch arrangement {
 	case 0: // in place
 		src = append([]byte{}, msg[pos:pos+n]...)
 		dst = src
@@ -177,6 +181,39 @@ func vpRunBig(decrypt bool) {
 	}
 	vp.Cover("end")
 }
+
+// the way a connection drives the stream: one call of 0..34 bytes, then calls
+// of one (or two, or three) bytes each - VarInt headers are read and written a
+// byte at a time - until 36 bytes have passed, so that a short call lands on
+// every position of the ring buffer, its last slot and the wrap included.
+func vpRunSmallCalls(decrypt bool) {
+	vpSetupNative()
+	const T = 36
+	iv := vp.Bytes(16)
+	msg := vp.Bytes(T)
+	want := vpRefCFB8(iv, msg, decrypt)
+	s := vpNewStream(decrypt, iv)
+	n0 := vp.Choice(35)
+	got := append([]byte{}, vpOneCall(s, msg, 0, n0)...)
+	m := 1 + vp.Choice(3)
+	arr := vp.Choice(2 + 2*vp.Tier())
+	for pos := n0; pos < T; {
+		n := m
+		if pos+n > T {
+			n = T - pos
+		}
+		got = append(got, vpOneCallArr(s, msg, pos, n, arr)...)
+		pos += n
+	}
+	vp.Assert(len(got) == T, "all bytes processed")
+	for i := range want {
+		vp.Assert(got[i] == want[i], "output == byte-at-a-time reference")
+	}
+	vp.Cover("end")
+}
+
+func VP_C10_enc_small_calls() { vpRunSmallCalls(false) }
+func VP_C10_dec_small_calls() { vpRunSmallCalls(true) }
 
 func VP_C10_enc_big() { vpRunBig(false) }
 func VP_C10_dec_big() { vpRunBig(true) }
